@@ -155,6 +155,10 @@ def cfgs(tier):
     if tier == "quick":
         out = [c for c in out if not (c["sched"] == "random" and c["W"] > 1 and c["shape"] != "indep3")]
         out.append({"n": 3, "edges": [], "output": [0, 1, 2], "W": 3, "sched": "default", "observer": "rec", "shape": "indep3"})
+    # only the LAST call requested: every other call has exactly one successor (no output gather fanning out of it)
+    for W in ((1, 2) if tier == "quick" else (1, 2, 3)):
+        out.append({"n": 3, "edges": [(0, 1, "p"), (1, 2, "p")], "output": 2, "W": W, "sched": "default", "observer": "rec", "shape": "chain3-last-only"})
+        out.append({"n": 4, "edges": [(0, 1, "p"), (1, 2, "d"), (2, 3, "k")], "output": 3, "W": W, "sched": "random", "observer": "rec", "shape": "chain4-last-only"})
     # one failing call combined with the interrupt (error must not mask KeyboardInterrupt)
     for W in (1, 2):
         out.append({"n": 3, "edges": [], "output": [0, 1, 2], "W": W, "sched": "default", "observer": "rec",
